@@ -52,8 +52,7 @@ def check_roundtrip(m: t.Dict[str, t.Any], tail: bytes, ctx: Ctx) -> t.List[Viol
 
 class Messages(Part):
     name = "messages"
-    examples = {QUICK: 500, THOROUGH: 25000}
-    shards = {QUICK: 8, THOROUGH: 16}
+    examples = {QUICK: 1500, THOROUGH: 25000}
 
     def strategy(self, tier: str) -> t.Any:
         big = st.booleans() if tier == THOROUGH else st.just(False)
